@@ -238,6 +238,12 @@ class Rng:
         return xs[self.below(len(xs))]
     def chance(self, num, den):
         return self.below(den) < num
+    def sample(self, xs, n):
+        xs = list(xs)
+        for i in range(min(n, len(xs))):
+            j = i + self.below(len(xs) - i)
+            xs[i], xs[j] = xs[j], xs[i]
+        return xs[:n]
 
 
 def hex_token(s):
